@@ -1,0 +1,231 @@
+//go:build verif
+
+// Contracts for the deductive checks in /verif (comment-only). Syntax: /tmp/cw/GUIDE.md.
+//
+// Lines starting with "//@?" are INACTIVE clauses: they state what property C07 demands but cannot be
+// discharged with the present engine; the reason is given next to each. They are placed directly after `nopanic`
+// on purpose: an engine that does not know "//@?" then reports them as "unrecognised contract line" instead of
+// gluing them to the preceding clause as a continuation.
+
+package template
+
+// ---- spec vocabulary for the inactive C07 clauses --------------------------------------------------
+// S(t, m, p): the text Substitute*/SubstituteWith produce for template t, mapping m, pattern p.
+// SE(t, m, p): that call reports an error.
+//@ spec S(t string, m ref, p ref) string
+//@ spec SE(t string, m ref, p ref) bool
+// mval(m, k), mok(m, k): the two results of the mapping m on the variable name k (m assumed to be a pure function).
+//@ spec mval(m ref, k string) string
+//@ spec mok(m ref, k string) bool
+// pfx(s, sep), sfx(s, sep): s before / after the FIRST occurrence of sep.
+//@ spec pfx(s string, sep string) string = s[0:sindex(s, sep)]
+//@ spec sfx(s string, sep string) string = s[sindex(s, sep)+len(sep):len(s)]
+// sourceText(t): t is text of the template being interpolated (never the product of a substitution). Uninterpreted:
+// it can only be obtained from a precondition, so an argument of Substitute/SubstituteWith that is built from a
+// looked-up value or an already interpolated default cannot satisfy it ("substituted values are never expanded again").
+//@ spec sourceText(t string) bool
+// pieces(x): x and every substring of x (and the empty string) are source text.
+//@ spec pieces(x string) bool = sourceText("") && sourceText(x) && (forall a int, b int :: 0 <= a && a <= b && b <= len(x) ==> sourceText(x[a:b]))
+
+//@ func getFirstBraceClosingIndex
+//@   nopanic[C01,C07]
+//@   ensures[C07] result == -1 || (0 <= result && result < len(s) && sat(s, result) == '}')
+//@   ensures[C01] result == -1 || 2 <= result     // a closing brace is only reported after an opening one and the byte that follows it
+//@   loop 1
+//@     invariant[C01,C07] 0 <= i && i <= len(s) + 1
+//@     invariant[C01] openVariableBraces >= 1 ==> i >= 2
+//@     decreases[C01] len(s) + 1 - i
+
+//@ func partition
+//@   nopanic[C01,C07]
+//@?  ensures[C07] pieces(s) ==> pieces(result.0) && pieces(result.1)     // same reason
+//@?  ensures[C07] contains(s, sep) ==> result.0 == s[0:sindex(s, sep)] && result.1 == s[sindex(s, sep)+len(sep):len(s)]     // engine: strings.SplitN(s, sep, 2) is modelled exactly only for a literal sep
+//@   requires len(sep) >= 1
+//@   ensures[C07] !contains(s, sep) ==> result.0 == s && result.1 == ""
+
+//@ func matchGroups
+//@   nopanic[C01,C07]
+//@   ensures result != nil
+
+//@ func withDefaultWhenAbsence
+//@   nopanic[C01,C07]
+//@?  ensures[C07] emptyOrUnset && contains(substitution, ":-") && !SE(sfx(substitution, ":-"), mapping, DefaultPattern) ==> err == nil && result.1 && result.0 == ite(!mok(mapping, pfx(substitution, ":-")) || mval(mapping, pfx(substitution, ":-")) == "", S(sfx(substitution, ":-"), mapping, DefaultPattern), mval(mapping, pfx(substitution, ":-")))     // engine: the result of a call through a function-typed parameter (mapping) cannot be named in a clause, and regexp.ReplaceAllStringFunc(closure) has no model, so S/SE/mval/mok cannot be tied to the code
+//@?  ensures[C07] !emptyOrUnset && contains(substitution, "-") && !SE(sfx(substitution, "-"), mapping, DefaultPattern) ==> err == nil && result.1 && result.0 == ite(!mok(mapping, pfx(substitution, "-")), S(sfx(substitution, "-"), mapping, DefaultPattern), mval(mapping, pfx(substitution, "-")))     // same
+//@?  ensures[C07] emptyOrUnset && contains(substitution, ":-") && SE(sfx(substitution, ":-"), mapping, DefaultPattern) ==> err != nil     // same
+//@   requires mapping != nil
+//@   requires[C07] pieces(substitution)
+//@   ensures[C07] emptyOrUnset && !contains(substitution, ":-") ==> result.0 == "" && !result.1 && err == nil
+//@   ensures[C07] !emptyOrUnset && !contains(substitution, "-") ==> result.0 == "" && !result.1 && err == nil
+//@   ensures[C07] emptyOrUnset && contains(substitution, ":-") && err == nil ==> result.1
+//@   ensures[C07] !emptyOrUnset && contains(substitution, "-") && err == nil ==> result.1
+//@   ensures[C07] err != nil ==> result.0 == "" && !result.1
+
+//@ func withDefaultWhenPresence
+//@   nopanic[C01,C07]
+//@?  ensures[C07] notEmpty && contains(substitution, ":+") && !SE(sfx(substitution, ":+"), mapping, DefaultPattern) ==> err == nil && result.1 && result.0 == ite(mok(mapping, pfx(substitution, ":+")) && mval(mapping, pfx(substitution, ":+")) != "", S(sfx(substitution, ":+"), mapping, DefaultPattern), "")     // engine: the result of a call through a function-typed parameter (mapping) cannot be named in a clause, and regexp.ReplaceAllStringFunc(closure) has no model, so S/SE/mval/mok cannot be tied to the code
+//@?  ensures[C07] !notEmpty && contains(substitution, "+") && !SE(sfx(substitution, "+"), mapping, DefaultPattern) ==> err == nil && result.1 && result.0 == ite(mok(mapping, pfx(substitution, "+")), S(sfx(substitution, "+"), mapping, DefaultPattern), "")     // same; NOTE the code returns mval(...) here, which equals "" only if an unset variable maps to "" (true of every Mapping in the library, not of an arbitrary one)
+//@   requires mapping != nil
+//@   requires[C07] pieces(substitution)
+//@   ensures[C07] notEmpty && !contains(substitution, ":+") ==> result.0 == "" && !result.1 && err == nil
+//@   ensures[C07] !notEmpty && !contains(substitution, "+") ==> result.0 == "" && !result.1 && err == nil
+//@   ensures[C07] notEmpty && contains(substitution, ":+") && err == nil ==> result.1
+//@   ensures[C07] !notEmpty && contains(substitution, "+") && err == nil ==> result.1
+//@   ensures[C07] err != nil ==> result.0 == "" && !result.1
+
+//@ func withRequired
+//@   nopanic[C01,C07]
+//@?  ensures[C07] contains(substitution, sep) && !SE(sfx(substitution, sep), mapping, DefaultPattern) && mok(mapping, pfx(substitution, sep)) && (sep == "?" || mval(mapping, pfx(substitution, sep)) != "") ==> err == nil && result.1 && result.0 == mval(mapping, pfx(substitution, sep))     // engine: the result of a call through a function-typed parameter (mapping) cannot be named in a clause, and regexp.ReplaceAllStringFunc(closure) has no model, so S/SE/mval/mok cannot be tied to the code
+//@?  ensures[C07] contains(substitution, sep) && !SE(sfx(substitution, sep), mapping, DefaultPattern) && (!mok(mapping, pfx(substitution, sep)) || (sep == ":?" && mval(mapping, pfx(substitution, sep)) == "")) ==> err != nil && result.1     // same; that the error carries Variable == pfx(...) and Reason == S(sfx(...)) is not expressible either (no field access on an error value)
+//@   requires mapping != nil
+//@   requires[C07] pieces(substitution)
+//@   requires valid != nil
+//@   requires len(sep) >= 1
+//@   ensures[C07] !contains(substitution, sep) ==> result.0 == "" && !result.1 && err == nil
+//@   ensures[C07] contains(substitution, sep) && err == nil ==> result.1
+//@   ensures[C07] err != nil ==> result.0 == ""
+
+//@ func requiredErrorWhenEmptyOrUnset$1
+//@   nopanic[C01,C07]
+//@   ensures[C07] result <==> v != ""
+
+//@ func requiredErrorWhenUnset$1
+//@   nopanic[C01,C07]
+//@   ensures[C07] result
+
+//@ func defaultWhenEmptyOrUnset
+//@   nopanic[C01,C07]
+//@   requires mapping != nil
+//@   requires[C07] pieces(substitution)
+//@   ensures[C07] !contains(substitution, ":-") ==> result.0 == "" && !result.1 && err == nil
+//@   ensures[C07] contains(substitution, ":-") && err == nil ==> result.1
+//@   ensures[C07] err != nil ==> result.0 == "" && !result.1
+
+//@ func defaultWhenUnset
+//@   nopanic[C01,C07]
+//@   requires mapping != nil
+//@   requires[C07] pieces(substitution)
+//@   ensures[C07] !contains(substitution, "-") ==> result.0 == "" && !result.1 && err == nil
+//@   ensures[C07] contains(substitution, "-") && err == nil ==> result.1
+//@   ensures[C07] err != nil ==> result.0 == "" && !result.1
+
+//@ func defaultWhenNotEmpty
+//@   nopanic[C01,C07]
+//@   requires mapping != nil
+//@   requires[C07] pieces(substitution)
+//@   ensures[C07] !contains(substitution, ":+") ==> result.0 == "" && !result.1 && err == nil
+//@   ensures[C07] contains(substitution, ":+") && err == nil ==> result.1
+//@   ensures[C07] err != nil ==> result.0 == "" && !result.1
+
+//@ func defaultWhenSet
+//@   nopanic[C01,C07]
+//@   requires mapping != nil
+//@   requires[C07] pieces(substitution)
+//@   ensures[C07] !contains(substitution, "+") ==> result.0 == "" && !result.1 && err == nil
+//@   ensures[C07] contains(substitution, "+") && err == nil ==> result.1
+//@   ensures[C07] err != nil ==> result.0 == "" && !result.1
+
+//@ func requiredErrorWhenEmptyOrUnset
+//@   nopanic[C01,C07]
+//@   requires mapping != nil
+//@   requires[C07] pieces(substitution)
+//@   ensures[C07] !contains(substitution, ":?") ==> result.0 == "" && !result.1 && err == nil
+//@   ensures[C07] contains(substitution, ":?") && err == nil ==> result.1
+//@   ensures[C07] err != nil ==> result.0 == ""
+
+//@ func requiredErrorWhenUnset
+//@   nopanic[C01,C07]
+//@   requires mapping != nil
+//@   requires[C07] pieces(substitution)
+//@   ensures[C07] !contains(substitution, "?") ==> result.0 == "" && !result.1 && err == nil
+//@   ensures[C07] contains(substitution, "?") && err == nil ==> result.1
+//@   ensures[C07] err != nil ==> result.0 == ""
+
+//@ func Substitute
+//@   nopanic[C01,C07]
+//@?  ensures[C07] (err != nil <==> SE(template, mapping, DefaultPattern)) && (err == nil ==> result.0 == S(template, mapping, DefaultPattern))     // follows from the clause of SubstituteWith once that one is admitted
+//@   requires mapping != nil
+//@   requires[C07] sourceText(template)
+
+//@ func SubstituteWith
+//@   nopanic[C01,C07]
+//@?  ensures[C07] (err != nil <==> SE(template, mapping, pattern)) && (err == nil ==> result.0 == S(template, mapping, pattern))     // engine: regexp.ReplaceAllStringFunc with a closure argument has no model (result havocked)
+//@   requires mapping != nil
+//@   requires[C07] sourceText(template)
+
+//@ func SubstituteWithOptions
+//@   nopanic[C01,C07]
+//@   requires mapping != nil
+//@   requires forall i int :: 0 <= i && i < len(options) ==> options[i] != nil
+
+//@ func SubstituteWithOptions$1
+//@   nopanic[C01,C07]
+//@   requires cfg != nil
+//@   requires mapping != nil
+
+//@ func DefaultReplacementFunc
+//@   nopanic[C01,C07]
+//@   requires cfg != nil
+//@   requires mapping != nil
+//@   requires[C07] pieces(substring)
+
+//@ func DefaultReplacementAppliedFunc
+//@   nopanic[C01,C07]
+//@   requires cfg != nil
+//@   requires mapping != nil
+//@   requires[C07] pieces(substring)
+//@   ensures[C07] err != nil ==> result.0 == "" && !result.1
+
+//@ func getSubstitutionFunctionForTemplate
+//@   nopanic[C01,C07]
+//@?  ensures[C07] result.1 != nil     // engine: sort.Slice havocs every heap instead of permuting the slice, so nothing is known about element 0 (nor len >= 1) afterwards
+//@?  ensures[C07] (result.0 == ":?" && result.1 == fn("requiredErrorWhenEmptyOrUnset")) || (result.0 == "?" && result.1 == fn("requiredErrorWhenUnset")) || (result.0 == ":-" && result.1 == fn("defaultWhenEmptyOrUnset")) || (result.0 == "-" && result.1 == fn("defaultWhenUnset")) || (result.0 == ":+" && result.1 == fn("defaultWhenNotEmpty")) || (result.0 == "+" && result.1 == fn("defaultWhenSet"))     // same reason (rows stay paired under a permutation)
+//@?  ensures[C07] contains(template, result.0) ==> (forall op string :: (op == ":?" || op == "?" || op == ":-" || op == "-" || op == ":+" || op == "+") && contains(template, op) ==> sindex(template, result.0) <= sindex(template, op))     // needs the assumed contract of sort.Slice ("no element is less than element 0")
+
+//@ func getSubstitutionFunctionForTemplate$1
+//@   nopanic[C01,C07]
+//@   requires 0 <= i && i < len(interpolationMapping) && 0 <= j && j < len(interpolationMapping)     // assumed contract of sort.Slice: less is called with valid indexes
+
+//@ func WithPattern
+//@   nopanic[C01]
+//@   ensures result != nil
+
+//@ func WithPattern$1
+//@   nopanic[C01]
+//@   requires cfg != nil
+
+//@ func WithSubstitutionFunction
+//@   nopanic[C01]
+//@   ensures result != nil
+
+//@ func WithSubstitutionFunction$1
+//@   nopanic[C01]
+//@   requires cfg != nil
+
+//@ func WithReplacementFunction
+//@   nopanic[C01]
+//@   ensures result != nil
+
+//@ func WithReplacementFunction$1
+//@   nopanic[C01]
+//@   requires cfg != nil
+
+//@ func WithoutLogging
+//@   nopanic[C01]
+//@   requires cfg != nil
+
+//@ func (InvalidTemplateError).Error
+//@   nopanic[C01]
+
+//@ func (MissingRequiredError).Error
+//@   nopanic[C01]
+
+//@ func ExtractVariables
+//@   nopanic[C01]
+//@   requires configDict != nil     // any-tree invariant of the engine (nilbox); a nil map does NOT crash the code
+
+//@ func recurseExtract
+//@   nopanic[C01]
+//@   ensures result != nil
+
+//@ func extractVariable
+//@   nopanic[C01]
